@@ -148,6 +148,11 @@ func unmarshalSecp256k1(jwk *jsonWebKey) (*JWK, error) {
 	x := jwk.X.bigInt()
 	y := jwk.Y.bigInt()
 
+	// coordinates are field elements: IsOnCurve reduces them, so that x + p would pass for x
+	if x.Cmp(curve.Params().P) >= 0 || y.Cmp(curve.Params().P) >= 0 {
+		return nil, ErrInvalidKey
+	}
+
 	if !curve.IsOnCurve(x, y) {
 		return nil, ErrInvalidKey
 	}
